@@ -12,7 +12,8 @@
 
    One history:  Download(no, n, seek)  Req*  Return(res).
    Req(o, r, k, cont, reset) says what origin o answered and what the implementation does
-   with a failed origin: cont = go on to the next origin, reset = rewind a seekable dst.
+   with a failed origin: cont = go on to the next origin (giving up early is allowed only when
+   dst already holds a partial blob that cannot be taken back), reset = rewind a seekable dst.
    The code as built always continues and never rewinds.  The specification's own Next only
    generates behaviours that keep the property: once dst holds a partial blob the call
    either rewinds dst (only possible if it is seekable) or stops asking origins and fails.
@@ -92,6 +93,7 @@ Req(o, r, k, cont, reset) ==
        [] r \in Retry5xx \cup {NetErr} -> OnUnavailable(cont)
        [] r = 404 -> OnFatal("nf")
        [] r \in Fatal4xx -> OnFatal("err")
+  /\ ~cont => (Partial(dst') /\ ~reset)   \* failing over may only be abandoned because dst is spoilt for good
 
 \* the poll backoff of the current origin timed out on 202 answers
 GiveUp202(cont) ==
